@@ -370,6 +370,8 @@ def m2(ctx, al, cfg, maxlen, maxmem):
                     # "a constant stream behaves like the constant": the library's Stream(v), and the number v
                     nconst += 1
                     for cm in ("stream", "number"):
+                        if cm == "number" and tlaval.parse(term["cok"]) is not True:
+                            continue       # with numbers the case would leave the guards (shared denominator)
                         routes = ROUTES[(gi + (cm == "number")) % len(ROUTES)]
                         obs = observe(al, case, maxlen, ns, lm, maxlen, routes, const_mode=cm)
                         judge(obs, maxlen, tout, "input" if f == "input-end" else "coef", routes, False,
